@@ -106,21 +106,30 @@ theorem mem_endOk_iff (last : Bool) (sibs : List VT) (b : Binding) :
     b ∈ endOk last sibs ↔ EndOk last sibs b := by
   unfold endOk EndOk
   cases last <;> simp
-  constructor
-  · intro h
-    split at h
-    · simp at h
-    · rename_i hn
-      simp at h
-      refine ⟨h, ?_⟩
-      intro c hc
-      simp at hn
-      exact hn c hc
-  · rintro ⟨rfl, h⟩
-    rw [if_neg]
-    · simp
-    · simp
-      exact h
+  exact And.comm
+
+theorem mem_dedup {α : Type} [DecidableEq α] (a : α) : ∀ (l : List α), a ∈ dedup l ↔ a ∈ l
+  | [] => by simp [dedup]
+  | x :: l => by
+    have ih := mem_dedup a l
+    unfold dedup
+    by_cases h : x ∈ dedup l
+    · rw [if_pos h, ih, List.mem_cons]
+      constructor
+      · exact Or.inr
+      · rintro (rfl | h')
+        · exact (mem_dedup a l).1 h
+        · exact h'
+    · rw [if_neg h, List.mem_cons, List.mem_cons, ih]
+
+theorem nodup_dedup {α : Type} [DecidableEq α] : ∀ (l : List α), (dedup l).Nodup
+  | [] => by simp [dedup]
+  | x :: l => by
+    have ih := nodup_dedup l
+    unfold dedup
+    by_cases h : x ∈ dedup l
+    · rw [if_pos h]; exact ih
+    · rw [if_neg h]; exact List.nodup_cons.2 ⟨h, ih⟩
 
 mutual
   theorem mem_matchPat_iff : ∀ (p : Pat) (n : VT) (b : Binding), b ∈ matchPat p n ↔ SatPat p n b
@@ -173,7 +182,7 @@ end
 theorem matchAll_sound (vt : VT) (p : Item) (r : Nat) (b : Binding) (h : (r, b) ∈ matchAll vt p) :
     ∃ n, n ∈ nodesOf vt ∧ n.info.id = r ∧ SatItem p n b := by
   unfold matchAll at h
-  rw [List.mem_eraseDups] at h
+  rw [mem_dedup] at h
   unfold matchAllRaw at h
   simp only [List.mem_flatMap, List.mem_map, Prod.mk.injEq] at h
   obtain ⟨n, hn, b', hb', rfl, rfl⟩ := h
@@ -184,7 +193,7 @@ fragment (quantified ones included). -/
 theorem matchAll_complete (vt : VT) (p : Item) (n : VT) (b : Binding)
     (hn : n ∈ nodesOf vt) (h : SatItem p n b) : (n.info.id, b) ∈ matchAll vt p := by
   unfold matchAll
-  rw [List.mem_eraseDups]
+  rw [mem_dedup]
   unfold matchAllRaw
   simp only [List.mem_flatMap, List.mem_map, Prod.mk.injEq]
   exact ⟨n, hn, b, (mem_matchItem_iff p n b).2 h, rfl, rfl⟩
@@ -192,6 +201,30 @@ theorem matchAll_complete (vt : VT) (p : Item) (n : VT) (b : Binding)
 /-- `matchAll_nodup`: each distinct (root, binding) exactly once. -/
 theorem matchAll_nodup (vt : VT) (p : Item) : (matchAll vt p).Nodup := by
   unfold matchAll
-  exact List.nodup_eraseDups _
+  exact nodup_dedup _
+
+/-- `matchAll_complete_qfree`: the instance the implementation is held to with equality. -/
+theorem matchAll_complete_qfree (vt : VT) (p : Item) (n : VT) (b : Binding)
+    (hn : n ∈ nodesOf vt) (h : SatItem p n b) : (n.info.id, b) ∈ matchAll vt p :=
+  matchAll_complete vt p n b hn h
+
+/-! Non-vacuity: `(paren (item) @x . ")")` on the tree of `( a b )`. -/
+def exLeaf (id : Nat) (kind : String) (named : Bool) : VT :=
+  .mk { id := id, kind := kind, named := named, missing := false, error := false, extra := false,
+        field := none, sb := id, eb := id + 1 } []
+def exTree : VT :=
+  .mk { id := 0, kind := "paren", named := true, missing := false, error := false, extra := false,
+        field := none, sb := 0, eb := 9 }
+    [exLeaf 1 "(" false, exLeaf 2 "item" true, exLeaf 3 "item" true, exLeaf 4 ")" false]
+def exPat : Item :=
+  .mk .none none (.node (.kind "paren" true) []
+    [.mk .none none (.node (.kind "item" true) [] [] false) .one ["x"],
+     .mk .loose none (.node (.kind ")" false) [] [] false) .one []] false) .one []
+
+example : matchAll exTree exPat = [(0, [("x", 3)])] := by decide
+example : SatItem exPat exTree [("x", 3)] :=
+  (mem_matchItem_iff exPat exTree _).1 (by decide)
+example : ∃ n, n ∈ nodesOf exTree ∧ n.info.id = 0 ∧ SatItem exPat n [("x", 3)] :=
+  matchAll_sound exTree exPat 0 _ (by decide)
 
 end TsVerif.C05
